@@ -16,7 +16,7 @@ META = {
     "bounds": {"quick": {"n": "0..3", "key range": "0..3 (lst -1..3)"}, "thorough": {"n": "0..4", "key range": "0..4"}},
     "outside": ["lists longer than the bound", "non-integer key values", "nan keys"],
 }
-REQUIRED_COVERS = {"any": ["task:reordered", "task:tie", "worker:reordered", "worker:mw-equal-not-identical", "facility:reordered", "workplace:reordered", "c11:strict-priority-pair", "c11:resource-rule-accepted", "c11:worker-choice"]}
+REQUIRED_COVERS = {"any": ["task:reordered", "task:tie", "worker:reordered", "worker:mw-equal-not-identical", "facility:reordered", "workplace:reordered", "c11:strict-priority-pair", "c11:resource-rule-accepted", "c11:worker-choice", "run:backward"]}
 
 TASK_MODES = list(range(9))
 
@@ -317,6 +317,15 @@ def integration_obligations(tier):
                         params += [["s12", 0, 2]]
                     obs.append({"name": "alloc/rule=%d/%s/W=%d/%s" % (rule, shape, nw, variant), "harness": "sim", "cube": {"spec": spec}, "params": params,
                                 "timeout": 900 if thorough else 150, "engine": "zsym"})
+    # the rule passed to backward_simulate() governs the backward run as well (dependency-free members: nothing to reverse, so the
+    # forward oracle applies step by step); one and two workers, one with a personal absence step
+    for rule in range(9):
+        for nw in (1, 2):
+            ws = [{"skills": {str(i): 1 for i in range(3)}, "abs": (["$a0"] if w == 0 else [])} for w in range(nw)]
+            spec = {"tasks": [{"w": "$w%d" % i} for i in range(3)], "edges": [], "teams": [{"targets": [0, 1, 2], "workers": ws}],
+                    "run": {"max_time": 14, "rule": rule, "backward": True}}
+            obs.append({"name": "alloc-backward/rule=%d/indep/W=%d" % (rule, nw), "harness": "sim", "cube": {"spec": spec},
+                        "params": [["w%d" % i, 1, 4 if thorough else 3] for i in range(3)] + [["a0", -1, 2]], "timeout": 900 if thorough else 150, "engine": "zsym"})
     return obs
 
 
